@@ -133,4 +133,13 @@ CHECKS = {
                 "property bounds memory, not time. No coverage-guided fuzzing.",
         "technique": "TLA+ outcome specification + TLC-enumerated structured corruptions of reference encodings + TLC trace validation of observed decoder outcomes",
     },
+    "C12": {
+        "text": "Envelope.tla defines the envelope algebra by closed intervals (empty = identity of the join, absorbing for the "
+                "predicates); TLC checks the lattice laws over all envelopes of a small lattice, enumerates every pair (thorough: "
+                "triple) of lattice envelopes incl. empty and degenerate ones as cases for every method of the real Envelope type, and "
+                "validates the recorded results, as well as Envelope() of random geometries, six re-representations, member envelopes "
+                "and Union envelopes, against the definitions.",
+        "note": TLCNOTE + "Integer ordinates only (exact arithmetic).",
+        "technique": "TLA+ interval algebra (TLC exhaustive laws) + TLC-enumerated envelope pairs/triples replayed + TLC trace validation",
+    },
 }
